@@ -7,5 +7,5 @@ WT=$(mktemp -d /tmp/tseed.XXXXXX); rmdir "$WT"
 git -C /repo worktree add -q --detach "$WT" HEAD || exit 3
 trap 'git -C /repo worktree remove --force "$WT" >/dev/null 2>&1' EXIT
 git -C "$WT" apply "/verif/seeded/$S/patch.diff" || { echo "PATCH DOES NOT APPLY"; exit 4; }
-cd /verif && VERIF_REPO_SRC="$WT/src" ./check "$@"
+mkdir -p /tmp/tryout/$S; cd /verif && VERIF_OUT_DIR=/tmp/tryout/$S VERIF_REPO_SRC="$WT/src" ./check "$@"
 echo "exit=$?"
